@@ -148,6 +148,16 @@ class Ctx:
                 v = extra(call, ev)
                 if v is not _oe.NOT_MODELLED:
                     return v
+            if depth < max_depth and classes and isinstance(call.func, _ast.Name) and call.func.id in classes and call.func.id not in ev.env:
+                # ClassName(...): a fresh model object of that class, initialised by the __init__ the MRO selects
+                k0 = classes[call.func.id]
+                obj = _oe.Obj(_cls=k0)
+                init = prog.find_method(k0, "__init__")
+                if init is not None:
+                    run_method(init, obj, call, ev, depth)
+                elif call.args or call.keywords:
+                    return _oe.NOT_MODELLED
+                return obj
             if depth < max_depth and module is not None and isinstance(call.func, _ast.Name) and call.func.id not in ev.env:
                 # a plain function of the analysed module (a shared predicate such as check_range): stepped into
                 try:
